@@ -286,3 +286,46 @@ def checkUDiv (op : String) (args res : List String) : Verdict :=
   | _ => .skip "udiv arity"
 
 end LP.Driver
+
+namespace LP.Driver
+open LP
+
+def pVarList? (s : String) : Option (List Nat) := pList? pNat? s
+
+def checkOrd (op : String) (args res : List String) : Verdict :=
+  match op, args, res with
+  | "check", [l, c, p], r :: rest =>
+    (match pVarList? l, pVarList? c, pPolyRaw? p with
+     | some L, some C, some raw =>
+       let want := layoutInOrder L C (raw.map (fun t => (Mono.norm t.1, t.2)))
+       let tag := s!"check/{if want then "in" else "out"}/{if L = C then "same" else "changed"}"
+       if r ≠ (if want then "1" else "0") then .viol "ord-check" s!"check_order answered {r}, the layout is {if want then "" else "not "}in order"
+       else if rest = ["0"] then .viol "ord-external" "external polynomial still out of order after use"
+       else .ok tag
+     | _, _, _ => .skip "bad")
+  | "keep", [rs, before], [after, inOrd] =>
+    (match pRing? rs, pPolyRaw? before, pPolyRaw? after with
+     | some (K, _), some b, some a =>
+       if !rawCanonical K a then .viol "poly-canon" "re-ordered polynomial not canonical"
+       else if MPoly.normalize K b ≠ MPoly.normalize K a then .viol "ord-keep" s!"re-ordering changed the polynomial: {after}"
+       else if inOrd ≠ "1" then .viol "ord-check" "check_order is false right after ensure_order"
+       else .ok "keep"
+     | _, _, _ => .skip "bad")
+  | "eqhash", [rs, p, q], [e, hp, hq, c] =>
+    (match pRing? rs, pPolyRaw? p, pPolyRaw? q with
+     | some (K, _), some p, some q =>
+       let same := MPoly.normalize K p = MPoly.normalize K q
+       if same then
+         (if e ≠ "1" then .viol "ord-eq" s!"equal polynomials reported different (eq={e}, hashes {hp} {hq})"
+          else if hp ≠ hq then .viol "ord-hash" s!"equal polynomials hash differently: {hp} {hq}"
+          else if c ≠ "0" then .viol "ord-cmp" "equal polynomials compare non-zero"
+          else if hp ≠ toString (MPoly.hash p) then .disagree s!"hash value {hp} differs from the mirror of coefficient_hash {MPoly.hash p}"
+          else .ok "eqhash/equal")
+       else
+         (if e ≠ "0" then .viol "ord-eq" "different polynomials reported equal"
+          else if c = "0" then .viol "ord-cmp" "different polynomials compare zero"
+          else .ok "eqhash/different")
+     | _, _, _ => .skip "bad")
+  | _, _, _ => .skip s!"unknown ord op {op}"
+
+end LP.Driver
